@@ -18,11 +18,15 @@ Batches (OG.C11.Batch) are answered against a second catalogue, built by:
   cgroup … (as `group`)                                                                     → ok
   batch <mst>:<o|e|b|s>:<t>:<k=v+k=v…|-> …
         → batch <gid/sid/key | -> … | dropped=<n> last=<kind|-> abort=<kind|->
+  mapq <tmin> <tmax> <mst,mst…> <cond…>                         (OG.C11.ReadMap.mapMst)
+  mapsub <tmin> <tmax> <mst,mst…> <imin|-> <imax|-> <inner cond…> <outer cond…>   (mapSub)
+        → map <mst>=<sorted shard ids> …                                          | err panic
 
 `hash` is instantiated with xxhash64 (seed 0), as `meta.HashID`.
 -/
 import OG.C11.Model
 import OG.C11.Batch
+import OG.C11.ReadMap
 
 namespace OG.C11
 
@@ -241,6 +245,27 @@ def showBatch (n : Nat) (outs : List (Row × Step)) : String :=
 
 def emptyCat : Catalogue := ⟨none, [], []⟩
 
+/-- one optional condition off the front of the token list (`N` = nil). -/
+def parseCondOpt1 : List String → Option (Option Cond × List String)
+  | "N" :: rest => some (none, rest)
+  | toks => (parseCond toks).map fun (c, rest) => (some c, rest)
+
+def insertNat (n : Nat) : List Nat → List Nat
+  | [] => [n]
+  | m :: ms => if n < m then n :: m :: ms else if n = m then m :: ms else m :: insertNat n ms
+
+/-- per measurement the sorted set of shard ids over all groups; `none` = a panic somewhere. -/
+def showMap : List (String × List (Group × Option (List Shard))) → Option String
+  | [] => some ""
+  | (n, gs) :: rest => do
+    let lists ← gs.mapM (·.2)
+    let ids := (lists.flatten.map (·.ID)).foldl (fun acc i => insertNat i acc) []
+    let r ← showMap rest
+    some (" " ++ showStr n ++ "=" ++ ",".intercalate (ids.map toString) ++ r)
+
+def optInt (tok : String) : Option (Option Int) :=
+  if tok == "-" then some none else tok.toInt?.map some
+
 structure DState where
   M : Meta
   C : Catalogue
@@ -269,6 +294,28 @@ def stepC (C : Catalogue) (toks : List String) : Option (Catalogue × String) :=
     if del == "0" || del == "1" then
       some ({ C with groups := C.groups ++ [⟨id, st, en, del == "1", trunc, sh, al, none⟩] }, "ok")
     else none
+  | "mapq" :: tmin :: tmax :: names :: cond => do
+    let lo ← tmin.toInt?
+    let hi ← tmax.toInt?
+    let ns ← parseList parseStr "," names
+    let msts ← ns.mapM C.findMst
+    let c ← parseCondOpt cond
+    match showMap (mapMst true hashID OG.Gen.C11.maxConditionTagGroups C msts lo hi c) with
+    | some s => some (C, "map" ++ s)
+    | none => some (C, "err panic")
+  | "mapsub" :: tmin :: tmax :: names :: imin :: imax :: conds => do
+    let lo ← tmin.toInt?
+    let hi ← tmax.toInt?
+    let ns ← parseList parseStr "," names
+    let msts ← ns.mapM C.findMst
+    let il ← optInt imin
+    let ih ← optInt imax
+    let (inner, rest) ← parseCondOpt1 conds
+    let (outer, rest') ← parseCondOpt1 rest
+    if rest' != [] then none
+    else match showMap (mapSub true hashID OG.Gen.C11.maxConditionTagGroups C msts lo hi il ih inner outer) with
+      | some s => some (C, "map" ++ s)
+      | none => some (C, "err panic")
   | "batch" :: rows => do
     let rs ← rows.mapM parseRow
     some (C, showBatch rs.length (routeBatch true true hashID C rs))
@@ -315,7 +362,8 @@ def step (M : Meta) (line : String) : Meta × String :=
   | _ => (M, "bad-op")
 
 def isCatOp (line : String) : Bool :=
-  line.startsWith "cat " || line.startsWith "cmst " || line.startsWith "cgroup " || line.startsWith "batch"
+  line.startsWith "cat " || line.startsWith "cmst " || line.startsWith "cgroup " || line.startsWith "batch" ||
+    line.startsWith "mapq " || line.startsWith "mapsub "
 
 partial def loop (h : IO.FS.Stream) (out : IO.FS.Stream) (s : DState) : IO Unit := do
   let line ← h.getLine
